@@ -4,6 +4,7 @@ import (
 	stdErrors "errors"
 	"fmt"
 	"regexp"
+	"strings"
 
 	schema "github.com/jsightapi/jsight-schema-core"
 	"github.com/jsightapi/jsight-schema-core/bytes"
@@ -124,6 +125,8 @@ func (core *JApiCore) buildUserTypes() *jerr.JApiError {
 
 var userTypeNameRegexp = regexp.MustCompile(`@[A-Za-z0-9_-]+`)
 
+var optionalOrNullableRegexp = regexp.MustCompile(`(optional|nullable)\s*:\s*true`)
+
 // maxUserTypeReferenceSteps limits the work of checkUserTypeReferences.
 const maxUserTypeReferenceSteps = 1 << 22
 
@@ -142,9 +145,15 @@ func (core *JApiCore) checkUserTypeReferences() *jerr.JApiError {
 		if _, ok := ut.(*jschema.JSchema); !ok || d == nil || !d.BodyCoords.IsSet() {
 			return nil
 		}
-		for _, name := range userTypeNameRegexp.FindAllString(d.BodyCoords.Read().String(), -1) {
-			if name != k && core.userTypes.Has(name) {
-				refs[k] = append(refs[k], name)
+		for _, line := range strings.Split(d.BodyCoords.Read().String(), "\n") {
+			if optionalOrNullableRegexp.MatchString(line) {
+				// The library does not follow a reference which may be absent.
+				continue
+			}
+			for _, name := range userTypeNameRegexp.FindAllString(line, -1) {
+				if name != k && core.userTypes.Has(name) {
+					refs[k] = append(refs[k], name)
+				}
 			}
 		}
 		return nil
